@@ -31,5 +31,8 @@ UNIT = dict(
     ('R11', 'enum SymbolicByteCode', dict(pat='  #[allow(dead_code)]\n', rep='', count=1)),
     ('R1', 'VecCursor::take'),
     ('R2', 'peephole_optimize'),
+    ('R13', 'label_count', dict(nth=0, mutable=False)),
+    ('R13', 'apply_stack_effects', dict(nth=0, mutable=True)),
+    ('R13', 'compute_label_offsets', dict(nth=0, mutable=False)),
   ],
 )
